@@ -261,4 +261,15 @@ def validateMulti (mode : OutMode) (proto : Proto) (nTargets : Nat) (resolveAll 
     | .tcp | .udp => !several
     | .icmp => true
 
+/-- `validate_privilege(privilege_mode, has_privileges, needs_privileges)`: `true` = accepted.  The five arms of the
+source: `(Privileged, true, _) | (Unprivileged, _, false) => Ok`, the other three are errors. -/
+def validatePrivilege (unprivileged has needs : Bool) : Bool :=
+  match unprivileged, has, needs with
+  | false, true, _ => true
+  | true, _, false => true
+  | false, false, true => false
+  | false, false, false => false
+  | true, false, true => false
+  | true, true, true => false
+
 end TV.Builder
